@@ -1510,3 +1510,8 @@ import os as _os
 for _f in sorted(_glob.glob(_os.path.join(_os.path.dirname(_os.path.dirname(_os.path.abspath(__file__))), 'refactors', '*.diff'))):
     VARIANTS.append({'id': 'rfp-' + _os.path.basename(_f)[:-5], 'property': None, 'expect': [], 'edits': [], 'patch': _f,
                      'kind': 'refactor', 'note': 'sub-agent refactor'})
+
+# a seeded change used as a violating variant (the unwind-path rule P3u has no one-line form)
+VARIANTS.append({'id': 'view-guard-around-closure', 'property': 'C05', 'expect': ['P3u'], 'edits': [], 'kind': 'violating',
+                 'patch': _os.path.join(_os.path.dirname(_os.path.dirname(_os.path.abspath(__file__))), 'seeded', 'C05-r7', 'patch.diff'),
+                 'note': 'an RAII guard that destroys the viewed payload is alive while the view closure runs: an unwinding closure destroys the value without consuming it'})
